@@ -116,3 +116,168 @@ Proof.
     split; [auto|]. split; [intro; lia|]. intros; lia.
   - simpl. apply join_ring_step. exact IH.
 Qed.
+
+(* ======================================================================================= *)
+(* Part 2: the concurrent protocol                                                          *)
+(* ======================================================================================= *)
+
+(* ---- what each thread contributes to the shared counters -------------------------------- *)
+
+(* 1 while the member's initial in-flight unit (Join) has not been released by SignalReady *)
+Definition mpend (pc : mpc) : nat :=
+  match pc with MWaitStd | MSetLock | MSetBody | MSetClose | MSetUnlock | MDec1 => 1 | _ => 0 end.
+
+(* the counted messages a processing goroutine is responsible for: the received message until
+   its Done, plus the child between inflight.Add(1) and a successful Send / its own Done *)
+Definition phold (p : proc) : nat :=
+  match p_pc p with
+  | PRecv | PEnd | PFin2 | PFin3 => 0
+  | PInc1 _ _ | PInc2 _ _ | PDrop2 _ | PDrop3 _ => b2n (is_cyc (p_src p))
+  | PSend _ _ | PDrop1 _ => S (b2n (is_cyc (p_src p)))
+  | PFin1 => 1
+  end.
+
+Definition md2 (pc : mpc) : nat := match pc with MDec2 => 1 | _ => 0 end.
+Definition md3 (pc : mpc) : nat := match pc with MDec3 => 1 | _ => 0 end.
+Definition pd2 (p : proc) : nat := match p_pc p with PDrop2 _ | PFin2 => 1 | _ => 0 end.
+Definition pd3 (p : proc) : nat := match p_pc p with PDrop3 _ | PFin3 => 1 | _ => 0 end.
+Definition nD2 (s : state) : nat := sumn md2 (st_main s) + sumn pd2 (st_proc s).
+Definition nD3 (s : state) : nat := sumn md3 (st_main s) + sumn pd3 (st_proc s).
+
+Definition mhold (pc : mpc) : nat :=
+  match pc with MSetBody | MSetClose | MSetUnlock => 1 | _ => 0 end.
+Definition mclose (pc : mpc) : nat := match pc with MSetClose => 1 | _ => 0 end.
+Definition bitp (pc : mpc) : bool :=
+  match pc with MWaitStd | MSetLock | MSetBody => true | _ => false end.
+
+(* teardown phase of a member: 0 before its Cleanup, 1 during Cleanup / Wake, 2 after *)
+Definition tphase (pc : mpc) : nat :=
+  match pc with MCleanup _ | MWake1 | MWake2 => 1 | MWaitRec | MDone => 2 | _ => 0 end.
+Definition cpos (n : nat) (pc : mpc) : nat :=
+  match pc with MCleanup k => k | MWake1 | MWake2 | MWaitRec | MDone => n | _ => 0 end.
+Definition woke1 (pc : mpc) : bool := match pc with MWake2 | MWaitRec | MDone => true | _ => false end.
+Definition woke2 (pc : mpc) : bool := match pc with MWaitRec | MDone => true | _ => false end.
+
+(* the teardown events member i has produced when it is at pc *)
+Definition evs (n i : nat) (pc : mpc) : list event :=
+  match pc with
+  | MCleanup k => map (EClose i) (seq 0 k)
+  | MWake1 | MWake2 => map (EClose i) (seq 0 n)
+  | MWaitRec | MDone => member_events n i
+  | _ => []
+  end.
+Fixpoint log_from (n : nat) (mains : list mpc) (m : nat) : list event :=
+  match m with
+  | O => []
+  | S j => evs n j (nth j mains MWaitStd) ++ log_from n mains j
+  end.
+
+(* size of the work a goroutine still has to send *)
+Definition psize (p : proc) : nat :=
+  match p_pc p with
+  | PInc1 m r | PInc2 m r | PSend m r => msize m + msizes r
+  | PDrop1 r | PDrop2 r | PDrop3 r => msizes r
+  | _ => 0
+  end.
+Definition qsize (q : qmsg) : nat := S (msizes (q_kids q)).
+
+Definition is_some {A} (o : option A) : bool := match o with Some _ => true | None => false end.
+
+(* ---- the invariant ------------------------------------------------------------------------ *)
+
+Record InvL (s : state) : Prop := {
+  il_n : 1 <= st_n s;
+  il_main : length (st_main s) = st_n s;
+  il_wake : length (st_wake s) = st_n s;
+  il_awake : length (st_awake s) = st_n s;
+  il_closed : length (st_closed s) = st_n s;
+  il_bits : length (sp_pool (st_pool s)) = st_n s;
+  il_proc : forall k p, nth_error (st_proc s) k = Some p ->
+            p_owner p < st_n s /\ forall a, p_src p = Some a -> a < st_n s;
+  il_flight : forall q, In q (st_flight s) -> q_src q < st_n s /\ q_dst q < st_n s;
+  il_edges : forall a b, a < st_n s -> b < st_n s ->
+             exists k p, nth_error (st_proc s) k = Some p /\ p_owner p = b /\ p_src p = Some a
+}.
+
+Record InvA (s : state) : Prop := {
+  (* inflight_invariant *)
+  ia_inflight : sp_inflight (st_pool s) =
+                Z.of_nat (sumn mpend (st_main s) + sumn phold (st_proc s) + length (st_flight s));
+  (* a goroutine of a standard sender runs only while its member has not signalled ready *)
+  ia_std : forall k p, nth_error (st_proc s) k = Some p -> p_src p = None -> p_pc p <> PEnd ->
+           nth_error (st_main s) (p_owner p) = Some MWaitStd;
+  ia_zero : (sp_zero (st_pool s) = true \/ 0 < nD2 s) <-> sp_inflight (st_pool s) = 0%Z;
+  ia_d3 : nD3 s + b2n (sp_quiet (st_pool s)) = b2n (sp_zero (st_pool s));
+  ia_total : (1 <= sp_total (st_pool s))%Z
+}.
+
+Record InvB (s : state) : Prop := {
+  ib_mu_cnt : sumn mhold (st_main s) = b2n (is_some (sp_mu (st_pool s)));
+  ib_mu : forall i, sp_mu (st_pool s) = Some i ->
+          exists pc, nth_error (st_main s) i = Some pc /\ mhold pc = 1;
+  ib_bits : forall i pc, nth_error (st_main s) i = Some pc ->
+            nth i (sp_pool (st_pool s)) false = bitp pc;
+  ib_ready : sumn mclose (st_main s) + b2n (sp_ready (st_pool s)) =
+             b2n (all_false (sp_pool (st_pool s)))
+}.
+
+Record InvC (s : state) : Prop := {
+  ic_closed : forall i pc, nth_error (st_main s) i = Some pc ->
+              nth i (st_closed s) 0 = cpos (st_n s) pc /\ (forall k, pc = MCleanup k -> k < st_n s);
+  ic_wake : forall i pc, nth_error (st_main s) i = Some pc ->
+            nth (nxt (st_n s) i) (st_awake s) false = woke1 pc /\
+            nth (nxt (st_n s) i) (st_wake s) false = woke2 pc;
+  ic_order : forall i pc, nth_error (st_main s) i = Some pc -> 1 <= tphase pc ->
+             sp_quiet (st_pool s) = true /\
+             forall j pcj, i < j -> nth_error (st_main s) j = Some pcj -> tphase pcj = 2;
+  ic_sleep : forall i, nth_error (st_main s) i = Some MSleep -> is_leader (st_n s) i = false;
+  ic_log : st_log s = log_from (st_n s) (st_main s) (st_n s);
+  ic_panic : sp_panic (st_pool s) = false
+}.
+
+Record InvD (W : nat) (s : state) : Prop := {
+  id_cons : sumn psize (st_proc s) + sumn qsize (st_flight s) + st_processed s + st_lost s = W;
+  id_lost : st_cancel s = false -> st_lost s = 0;
+  id_pend : forall k p a, nth_error (st_proc s) k = Some p -> p_src p = Some a -> p_pc p = PEnd ->
+            edge_closed s a (p_owner p) = true
+}.
+
+Record Inv (W : nat) (s : state) : Prop := {
+  iL : InvL s; iA : InvA s; iB : InvB s; iC : InvC s; iD : InvD W s
+}.
+
+(* ---- frame lemmas: what a step of each kind of thread leaves unchanged -------------------- *)
+
+Lemma step_main_frame s i pc s' :
+  step_main s i pc = Some s' ->
+  st_n s' = st_n s /\ st_proc s' = st_proc s /\ st_flight s' = st_flight s /\
+  st_cancel s' = st_cancel s /\ st_processed s' = st_processed s /\ st_lost s' = st_lost s /\
+  exists pc', st_main s' = upd i pc' (st_main s).
+Proof.
+  unfold step_main. intro H.
+  destruct pc; simpl in H;
+    repeat match type of H with
+           | (if ?c then _ else _) = _ => destruct c
+           | match ?c with _ => _ end = _ => destruct c
+           end;
+    try discriminate; inversion H; subst; simpl; repeat split; eauto.
+Qed.
+
+Lemma step_proc_frame s k pr s' :
+  step_proc s k pr = Some s' ->
+  st_n s' = st_n s /\ st_main s' = st_main s /\ st_wake s' = st_wake s /\
+  st_awake s' = st_awake s /\ st_closed s' = st_closed s /\ st_log s' = st_log s /\
+  st_cancel s' = st_cancel s /\
+  sp_mu (st_pool s') = sp_mu (st_pool s) /\ sp_pool (st_pool s') = sp_pool (st_pool s) /\
+  sp_ready (st_pool s') = sp_ready (st_pool s) /\
+  (exists pc', st_proc s' = upd k (mkProc (p_owner pr) (p_src pr) pc') (st_proc s)).
+Proof.
+  unfold step_proc. intro H. destruct pr as [o src pc]. simpl in H.
+  destruct pc as [|m r|m r|[d ks] r|r|r|r| | | |]; simpl in H;
+    repeat match type of H with
+           | (if ?c then _ else _) = _ => destruct c
+           | match ?c with _ => _ end = _ => destruct c
+           end;
+    try discriminate; inversion H; subst; simpl; repeat split; eauto;
+    unfold a_close_quiet; destruct (sp_quiet (st_pool s)); reflexivity.
+Qed.
